@@ -1,4 +1,5 @@
 """C01 — requests conform to the WSDL and schema they were built from."""
+import math
 import re
 
 from . import common, family as F
@@ -10,6 +11,7 @@ THEOREMS = [
     "optional_container_reaches_every_member", "members_of_optional_container_omitted",
     "required_member_not_omitted",
     "toplevel_optional_param_refuted", "guard_excludes_exactly_toplevel_quirk", "toplevel_quirk_differs",
+    "nonfinite_lexical_in_double_space", "nonfinite_lexical_injective", "python_spellings_refuted",
     "children_in_schema_order", "object_node_shape", "nodes_named_and_qualified_by_declaration",
     "list_side_condition_necessary", "theorem_instance_holds",
     "wildcard_shortcut_refuted", "undeclared_key_refuted",
@@ -48,6 +50,58 @@ def pick_prefixes(rng, n):
         rng.shuffle(ks)
         return ["ns%d" % k for k in ks[:n]]
     return rng.sample(["ns0", "ns1", "ns2", "ns10", "tn", "xs", "q", "SOAP-ENC", "m"], n)
+
+
+NONFINITE = 0.25    # share of float/double leaves replaced by a non-finite value
+ATTR_BUILTINS = ["string", "int", "boolean", "double", "float"]
+
+
+def nonfinite_leaf(rng):
+    k = rng.randrange(5)
+    if k == 0:
+        return ("leaf", float("nan"), "NaN")            # a fresh NaN object each time
+    if k == 1:
+        return ("leaf", math.nan, "NaN")
+    if k == 2:
+        inf = float("inf")
+        return ("leaf", inf - inf, "NaN")
+    if k == 3:
+        return ("leaf", float("inf"), "INF")
+    return ("leaf", float("-inf"), "-INF")
+
+
+def inject_nonfinite(rng, v, feats, where="element"):
+    """replace some float/double leaves (elements, list items, attributes) by NaN / INF / -INF"""
+    if isinstance(v, tuple) and v and v[0] == "leaf":
+        if isinstance(v[1], float) and rng.random() < NONFINITE:
+            feats.add("non-finite-float-as-" + where)
+            return nonfinite_leaf(rng)
+        return v
+    if isinstance(v, list):
+        return [inject_nonfinite(rng, x, feats, "list-item") for x in v]
+    if isinstance(v, F.VObj):
+        v.fields[:] = [(k, inject_nonfinite(rng, x, feats, "attribute" if k.startswith("_") else "element"))
+                       for k, x in v.fields]
+    return v
+
+
+def collect_floats(v, acc):
+    """(kind, expected text) of every float/double leaf of a value"""
+    if isinstance(v, tuple) and v and v[0] == "leaf":
+        if isinstance(v[1], float):
+            x = v[1]
+            kind = "(Some NFNaN)" if x != x else "(Some NFPosInf)" if x == float("inf") else \
+                "(Some NFNegInf)" if x == float("-inf") else "None"
+            acc.add((kind, v[2]))
+    elif isinstance(v, list):
+        for x in v:
+            collect_floats(x, acc)
+    elif isinstance(v, F.VObj):
+        for _, x in v.fields:
+            collect_floats(x, acc)
+    elif isinstance(v, dict):
+        for x in v.values():
+            collect_floats(x, acc)
 
 
 def toplevel_optional_groups(S, t):
@@ -118,6 +172,16 @@ def gen_args(rng, S, t):
     """(kwargs as abstract values, values in parameter order incl. None)"""
     obj = F.gen_object(rng, S, t, depth=0, typed=False, absent_groups=ABSENT)
     given = dict((k, v) for k, v in obj.fields if not k.startswith("_"))
+    params = [p for p, _ in S.flat(t) if isinstance(p, F.Elem)]
+    return given, [given.get(p.name) for p in params]
+
+
+def gen_args_nf(rng, S, t, feats, floats):
+    """gen_args + non-finite floats; records the float leaves"""
+    given, _ = gen_args(rng, S, t)
+    for k in list(given):
+        given[k] = inject_nonfinite(rng, given[k], feats)
+    collect_floats(given, floats)
     params = [p for p, _ in S.flat(t) if isinstance(p, F.Elem)]
     return given, [given.get(p.name) for p in params]
 
@@ -213,6 +277,13 @@ def run(ck):
         "into another namespace is a spec failure here",
         "optional containers (coq/C01/OptionalProofs.v): members of a minOccurs=0 sequence/choice/all/group "
         "reference of a nested object left None are omitted whatever their own minOccurs",
+        "members declared by <xsd:element ref=..> to a global element of the same or another namespace "
+        "(nillable / default on the target, occurs on the reference) are judged as the declaration they denote",
+        "float/double leaves (elements, list items, attributes) include fresh NaN objects, INF, -INF; the "
+        "expected texts are judged against C06's lexical space (coq/C01/Leaves.v imports coq/C06/Floats.v)",
+        "every service has a second document/literal port over another port type whose operations have the "
+        "same names but other input messages; both ports are invoked on one client in either order and each "
+        "request is judged against its own port's wrapper / parts",
         "rpc/encoded (SOAP section 5) is modelled and proved separately: coq/C01/Encoded.v, EncodedProps.v",
         "not modelled here: prefix assignment/serialisation (C05), argument binding (C08), lexical forms (C06)",
     ]
@@ -221,6 +292,7 @@ def run(ck):
     n_schemas = 50 if ck.tier == "quick" else 500
     per_type = 3 if ck.tier == "quick" else 6
     W, B, R, Q = [], [], [], []          # (case text, meta)
+    floats = set()                       # (kind, expected text) of every float/double leaf put into a request
     rng = ck.rng
 
     def call(client, port, opname, args, kwargs, extract):
@@ -233,8 +305,10 @@ def run(ck):
         except Exception as e:  # noqa
             return False, repr(e)
 
-    def wrapped_case(S, client, wsdl, k, t, given, xstq):
-        """run op<k>(**given) and print the case; returns the Coq tag of the implementation's result"""
+    def wrapped_case(S, client, wsdl, k, t, given, xstq, port="port_document", wrapper=None):
+        """run op<k>(**given) through `port` and print the case; wrapper = (namespace index, name) of the
+        input wrapper element of that port's operation"""
+        wns, wname = wrapper if wrapper is not None else (0, "op%d" % k)
         I = F.new_interner()
         P = F.CoqPrinter(S, I)
         params = [p for p, _ in S.flat(t) if isinstance(p, F.Elem)]
@@ -246,7 +320,7 @@ def run(ck):
             kwargs = None
             impl, raw = False, "factory: " + repr(e)
         if kwargs is not None:
-            impl, raw = call(client, "port_document", "op%d" % k, (), kwargs,
+            impl, raw = call(client, port, "op%d" % k, (), kwargs,
                              lambda body: body.elements())
         if impl is None:
             ci = "ITypeNotFound"
@@ -255,10 +329,10 @@ def run(ck):
         else:
             ci = "(IOk %s)" % F.node_to_coq(S, I, impl[0])
         wrapper = "(mkE %s %s true (TNamed %s %s) false false false None)" % (
-            cN(I("op%d" % k)), cN(1), cN(t.ns + 1), cN(I(t.name)))
+            cN(I(wname)), cN(wns + 1), cN(t.ns + 1), cN(I(t.name)))
         W.append(("(mkW %s %s %s %s %s)" % (P.schema(), cbool(xstq), wrapper,
                                              clist([P.value(v) for v in args], "value"), ci),
-                  (wsdl, "op%d" % k, dict(given), xstq, raw)))
+                  (wsdl, "%s.op%d" % (port, k), dict(given), xstq, raw)))
         ck.count("wrapped-" + ci.split(" ")[0].strip("("))
         return args
 
@@ -281,9 +355,10 @@ def run(ck):
 
     for si in range(n_schemas):
         if si % 2 == 0:     # denser in nested objects with optional containers
-            S = F.gen_schema(rng, markup_attr_names=True, p_nested=0.45, p_cont_opt=0.6, p_named=0.45)
+            S = F.gen_schema(rng, markup_attr_names=True, p_nested=0.45, p_cont_opt=0.6, p_named=0.45,
+                             p_ref=0.2, attr_builtins=ATTR_BUILTINS)
         else:
-            S = F.gen_schema(rng, markup_attr_names=True)
+            S = F.gen_schema(rng, markup_attr_names=True, p_ref=0.2, attr_builtins=ATTR_BUILTINS)
         # header parts (soap:header) declared for every wrapped operation: global elements of any of the
         # namespaces, typed by a complex type of the schema or a builtin
         hdrs = []
@@ -301,6 +376,18 @@ def run(ck):
         ops.append(F.Op("bare0", "bare", parts=[("g1", ("n", tb.ns, tb.name)), ("g2", ("b", b1))]))
         body_ns = rng.randrange(len(S.namespaces))
         ops.append(F.Op("rpc0", "rpc", parts=[("x", ("n", tr.ns, tr.name)), ("y", ("b", b2))], body_ns=body_ns))
+        # a second document/literal port over another port type whose operations have the SAME names but other
+        # input messages (a v2 of the API): other wrapper element (any namespace), other type; bare0 with
+        # other parts
+        v2 = []
+        for k, t in enumerate(S.types):
+            others = [x for x in S.types if x is not t] or [t]
+            t2 = rng.choice(others)
+            wns = rng.randrange(len(S.namespaces))
+            wname = "op%d" % k if wns != 0 else "op%dV2" % k
+            v2.append((t2, (wns, wname)))
+            ops.append(F.Op("op%d" % k, "wrapped", in_type=(t2.ns, t2.name), port="v2", wrapper=(wns, wname)))
+        ops.append(F.Op("bare0", "bare", parts=[("g3", ("b", b2)), ("g4", ("n", tr.ns, tr.name))], port="v2"))
         Rr = F.Renderer(S, pick_prefixes(rng, len(S.namespaces)))
         Rr.groups = rng.random() < 0.35          # nested containers as <xsd:group ref=.. [minOccurs="0"]/>
         Rr.local_tns = rng.random() < 0.2
@@ -312,15 +399,35 @@ def run(ck):
                              {"wsdl": wsdl.decode("utf-8"), "error": repr(e)})
             continue
         feats = set()
+        for ty in S.types:
+            for pm, _ in S.flat(ty):
+                if isinstance(pm, F.Elem) and pm.ref:
+                    feats.add("member-declared-by-element-ref")
+                    if pm.ns != ty.ns:
+                        feats.add("member-declared-by-element-ref-to-foreign-namespace")
+                    if pm.nillable:
+                        feats.add("member-declared-by-ref-to-nillable-element")
         # ---- wrapped
         for k, t in enumerate(S.types):
             for rep in range(per_type):
-                given, args = gen_args(rng, S, t)
+                def through_v2():
+                    # the same-named operation of the other port type, on the same client
+                    t2, wr = v2[k]
+                    g2, _ = gen_args_nf(rng, S, t2, feats, floats)
+                    a2 = wrapped_case(S, client, wsdl, k, t2, g2, rng.random() < 0.8, port="port_v2", wrapper=wr)
+                    ck.seen(("w2", si, k), nontrivial=any(isinstance(v, (F.VObj, list)) for v in a2))
+                    ck.count("wrapped-through-second-port-same-operation-name")
+                v2_first = rng.random() < 0.5
+                if rep == 0 and v2_first:
+                    through_v2()
+                given, args = gen_args_nf(rng, S, t, feats, floats)
                 xstq = rng.random() < 0.8
                 if rng.random() < TOP_ABSENT and leave_out_toplevel_group(rng, S, t, given):
                     ck.count("wrapped-toplevel-optional-container-left-out")
                     feats.add("toplevel-optional-container-left-out")
                 args = wrapped_case(S, client, wsdl, k, t, given, xstq)
+                if rep == 0 and not v2_first:
+                    through_v2()
                 for v in args:
                     features(v, feats)
                 absent_features(S, None, F.VObj((t.ns, t.name), list(given.items())), feats, 0)
@@ -330,11 +437,13 @@ def run(ck):
             for rep in range(1 if ck.tier == "quick" else 3):
                 I = F.new_interner()
                 P = F.CoqPrinter(S, I)
-                given, args = gen_args(rng, S, t)
+                given, args = gen_args_nf(rng, S, t, feats, floats)
                 xstq = rng.random() < 0.8
                 as_dict = rng.random() < 0.6
-                hvals = [F.gen_value(rng, S, F.Elem(hn, hns, True, htr), depth=1, absent_groups=ABSENT)
+                hvals = [inject_nonfinite(rng, F.gen_value(rng, S, F.Elem(hn, hns, True, htr), depth=1,
+                                                           absent_groups=ABSENT), feats)
                          for hn, hns, htr in hdrs]
+                collect_floats(hvals, floats)
                 if as_dict:
                     hvals = [None if rng.random() < 0.25 else v for v in hvals]
                 else:
@@ -388,36 +497,56 @@ def run(ck):
                 ck.seen(("q", si, k, rep), nontrivial=n_h > 0)
                 ck.count("request-" + ci.split(" ")[0].strip("("))
         # ---- bare & rpc
-        for rep in range(per_type):
+        def bare_case(port, parts_decl, values, xstq):
+            """bare0(*values) through `port`; parts_decl = [(global element name, tref)]"""
             I = F.new_interner()
             P = F.CoqPrinter(S, I)
-            xstq = rng.random() < 0.8
             client.set_options(xstq=xstq)
-            e1 = F.Elem("g1", 0, True, ("n", tb.ns, tb.name))
-            v1 = F.gen_value(rng, S, e1, depth=1, absent_groups=ABSENT)
-            v2 = ("leaf",) + F.gen_leaf(rng, b1)
+            collect_floats(list(values), floats)
             try:
-                pargs = (F.to_python(client, S, v1), F.to_python(client, S, v2))
-                impl, raw = call(client, "port_document", "bare0", pargs, {}, lambda body: body.elements())
+                pargs = tuple(F.to_python(client, S, v) for v in values)
+                impl, raw = call(client, port, "bare0", pargs, {}, lambda body: body.elements())
             except Exception as e:  # noqa
                 impl, raw = False, "factory: " + repr(e)
             ci = "INTypeNotFound" if impl is None else "INOther" if impl is False else \
                 "(INodes %s)" % clist([F.node_to_coq(S, I, n) for n in impl], "xnode")
-            parts = clist(["(global_elem %s %s %s)" % (cN(I("g1")), cN(1), P.tref(("n", tb.ns, tb.name))),
-                           "(global_elem %s %s TBuiltin)" % (cN(I("g2")), cN(1))], "edecl")
+            parts = clist(["(global_elem %s %s %s)" % (cN(I(g)), cN(1), P.tref(tr)) for g, tr in parts_decl], "edecl")
             B.append(("(mkB %s %s %s %s %s)" % (P.schema(), cbool(xstq), parts,
-                                                 clist([P.value(v1), P.value(v2)], "value"), ci),
-                      (wsdl, "bare0", (v1, v2), xstq, raw)))
+                                                 clist([P.value(v) for v in values], "value"), ci),
+                      (wsdl, "%s.bare0" % port, tuple(values), xstq, raw)))
+            ck.count("bare-" + ci.split(" ")[0].strip("("))
+
+        for rep in range(per_type):
+            xstq = rng.random() < 0.8
+            e1 = F.Elem("g1", 0, True, ("n", tb.ns, tb.name))
+            v1 = inject_nonfinite(rng, F.gen_value(rng, S, e1, depth=1, absent_groups=ABSENT), feats)
+            v2b = inject_nonfinite(rng, ("leaf",) + F.gen_leaf(rng, b1), feats)
+
+            def bare_v2():
+                w1 = inject_nonfinite(rng, ("leaf",) + F.gen_leaf(rng, b2), feats)
+                w2 = inject_nonfinite(rng, F.gen_value(rng, S, F.Elem("g4", 0, True, ("n", tr.ns, tr.name)), depth=1,
+                                                       absent_groups=ABSENT), feats)
+                bare_case("port_v2", [("g3", ("b", b2)), ("g4", ("n", tr.ns, tr.name))], (w1, w2), rng.random() < 0.8)
+                ck.seen(("b2", si, rep))
+                ck.count("bare-through-second-port-same-operation-name")
+            v2_first = rng.random() < 0.5
+            if rep == 0 and v2_first:
+                bare_v2()
+            bare_case("port_document", [("g1", ("n", tb.ns, tb.name)), ("g2", ("b", b1))], (v1, v2b), xstq)
+            if rep == 0 and not v2_first:
+                bare_v2()
             features(v1, feats)
             absent_features(S, tb, v1, feats, 1)
             ck.seen(("b", si, rep))
-            ck.count("bare-" + ci.split(" ")[0].strip("("))
+            xstq = rng.random() < 0.8
+            client.set_options(xstq=xstq)
             # rpc
             I = F.new_interner()
             P = F.CoqPrinter(S, I)
             ex = F.Elem("x", 0, False, ("n", tr.ns, tr.name), opt=True)
-            vx = F.gen_value(rng, S, ex, depth=1, absent_groups=ABSENT)
-            vy = None if rng.random() < 0.2 else ("leaf",) + F.gen_leaf(rng, b2)
+            vx = inject_nonfinite(rng, F.gen_value(rng, S, ex, depth=1, absent_groups=ABSENT), feats)
+            vy = None if rng.random() < 0.2 else inject_nonfinite(rng, ("leaf",) + F.gen_leaf(rng, b2), feats)
+            collect_floats([vx, vy], floats)
             try:
                 pargs = (F.to_python(client, S, vx), F.to_python(client, S, vy))
                 style = rng.randrange(3)
@@ -492,6 +621,16 @@ def run(ck):
     judge("whole", Q, "qcase", "request_agrees", "request_spec_ok",
           "(fun c => request_guard c && args_lists_ok (q_schema c) (q_wrapper c) (q_args c))")
     judge("bare", B, "bcase", "bare_agrees", "bare_spec_ok", "bare_guard")
+    # the texts the reference expects for float/double leaves are C06's lexical forms (judged in Coq against
+    # coq/C06/Floats.v; that the requests carry exactly these texts is part of *_spec_ok above)
+    fl = sorted(floats)
+    fres = ck.run_cases("floatleaf", "From SV Require Import Lib.Base C01.Leaves.", "option nonfinite * str",
+                        ["(%s, %s)" % (k, common.cstr(t)) for k, t in fl], ["float_leaf_spec_ok"])
+    ck.extra["float_leaves_judged_against_C06_lexical_space"] = len(fl)
+    ck.extra["non_finite_float_leaves"] = len([1 for k, _ in fl if k != "None"])
+    for i in fres["float_leaf_spec_ok"][:1]:
+        ck.unproved("the text the generator expects for a float leaf is not in C06's lexical space for that "
+                    "value: %r" % (fl[i],), {"leaf": repr(fl[i])})
     judge("rpc", R, "rcase", "rpc_agrees", "rpc_spec_ok", "rpc_guard")
 
     ck.rule = ("generated abstract schemas (1-3 namespaces, nested sequence/choice/all - every other schema dense in "
@@ -499,7 +638,8 @@ def run(ck):
                "named type/nil/arrayType/id/href, nillable/default/occurs), rendered with t<i> or ns<k>-style WSDL "
                "prefixes, nested containers inline or as xsd:group references, optionally a block-local tns prefix "
                "x {one document/literal wrapped operation per type with 1-3 soap:header parts, a bare two-part "
-               "operation, an rpc/literal two-part operation} x conforming argument trees (dicts, factory objects "
+               "operation, an rpc/literal two-part operation, a second document/literal port with same-named "
+               "operations over other messages} x conforming argument trees (dicts, factory objects "
                "incl. derived types, lists, None, whole optional containers of nested objects left None/absent) x "
                "for the whole-request cases typed header values given as dict or tuple; distinct = (schema, op, "
                "repetition) index; non-trivial = some argument is an object or list (all bare/rpc cases) / a typed "
